@@ -108,7 +108,7 @@ def bset(vals):
 
 def mc_cfg(geo, nstep=2, niter=2, adptfac=1, parA=(False,), parB=(False,), dump=(False, True), allowA=(False, True),
            sym=(True, False), withB=True, allorders=True, acc=True, sorted_listing=True, waitfirst=False, view=True,
-           restart_iters=(1,), maxleg=9,
+           restart_iters=(1,), maxleg=9, firstleg=9, allowargB=(True, False),
            invs=INVS_ALL, props=("PickleAppendOnly", "FactorFilesGrow", "ResumeLatest")):
     lines = ["SPECIFICATION MCSpec", "CONSTANTS",
              f"  D = {geo.D}", f"  N = {geo.N}", f"  NDIV = {geo.NDIV}", f"  LMAX = {geo.LMAX}",
@@ -119,7 +119,8 @@ def mc_cfg(geo, nstep=2, niter=2, adptfac=1, parA=(False,), parB=(False,), dump=
              f"  ParA = {bset(parA)}", f"  ParB = {bset(parB)}", f"  DumpSet = {bset(dump)}", f"  AllowASet = {bset(allowA)}",
              f"  SymSet = {bset(sym)}", f"  WithB = {'TRUE' if withB else 'FALSE'}",
              f"  AllOrders = {'TRUE' if allorders else 'FALSE'}",
-             "  RestartIters = {" + ", ".join(str(r) for r in restart_iters) + "}", f"  MaxLeg = {maxleg}"]
+             "  RestartIters = {" + ", ".join(str(r) for r in restart_iters) + "}", f"  MaxLeg = {maxleg}",
+             f"  FirstLegMax = {firstleg}", f"  AllowArgB = {bset(allowargB)}"]
     if view:
         lines.append("VIEW mcview")
     lines += [f"INVARIANT {i}" for i in invs]
@@ -199,7 +200,7 @@ def summarize_ops(ops):
         else:
             m = o["mode"]
             out.append(dict(run="restart" if o["restart"] else "fresh", nit=o["nit"], ri=o.get("ri", -1),
-                            mode="".join(k[0] for k in ("par", "dump", "allow", "sym") if m[k]),
+                            mode="".join(k[0] for k in ("par", "dump", "allow", "sym") if m[k]), allow_arg=o.get("allow_arg"),
                             listing=o.get("listing"), refine=[[list(c[0]) + [c[1]] for c in cs] for _, cs in o.get("refine", [])],
                             sched={str(k): v for k, v in o.get("sched", {}).items()}))
     return out
@@ -302,11 +303,11 @@ def run_scripts(ctx, batch, geo, scripts, name, adpt_fac=1, ncpu=2, origin="tlc-
     shutil.rmtree(wd, ignore_errors=True)
 
 
-def run_random(ctx, batch, geo, rng, n, niter, name, adpt_fac=1, ncpu=2, allow_par=True):
+def run_random(ctx, batch, geo, rng, n, niter, name, adpt_fac=1, ncpu=2, allow_par=True, first_dump_noallow_zero=False):
     wd = ctx.wd("r_" + name)
     for i in range(n):
         ev, errs, w, summary = RS.execute_random(geo, os.path.join(wd, f"r{i}"), rng, niter, adpt_fac=adpt_fac, ncpu=ncpu,
-                                                 allow_par=allow_par)
+                                                 allow_par=allow_par, dump_noallow_zero=(first_dump_noallow_zero and i == 0))
         info = dict(origin="random", ops=summary, adpt_fac=adpt_fac, ncpu=ncpu, seed=seed(), index=i)
         batch.add(geo, ncpu, w, ev, info, classes={"random"} | RS.classes_of(summary, w))
         ctx.rep.case((geo.key(), "random", i, seed(), name))
@@ -621,6 +622,9 @@ def _check_body(ctx, ex):
         # three iterations in legs of at most one iteration: at least two successive restarts
         ex.submit("c11_legs", mc_cfg(g2, niter=3, adptfac=1, allowA=(True,), sym=(True,), dump=(False, True), allorders=False,
                                      maxleg=1, restart_iters=(1, 2)), expect_actions=acts + ["RestartBBack"])
+        # dump_results without the argument allow_restart, first leg of zero refinement iterations, then restart(s)
+        ex.submit("c11_free", mc_cfg(g1, niter=2, adptfac=1, allowA=(True,), sym=(True,), dump=(True,), allorders=False, firstleg=0,
+                                     allowargB=(False,), restart_iters=(1, 2)), expect_actions=acts)
         if thorough:
             ex.submit("c11_1d_fac2", mc_cfg(g1, niter=2, adptfac=2, allorders=False, allowA=(True,)), expect_actions=acts)
             ex.submit("c11_1d_3it", mc_cfg(GEOS["1d_inv6"], niter=3, adptfac=1, allowA=(True,), sym=(True,)),
@@ -631,25 +635,29 @@ def _check_body(ctx, ex):
         if ctx.traces_off:
             return
         # (geometry, adpt_fac, iterations, behaviours, MaxLeg)
-        plan = [("1d_inv", 1, 2, 8, 9), ("2d_c4", 1, 2, 4, 9), ("1d_inv6", 1, 3, 6, 1)]
+        # (geometry, adpt_fac, iterations, behaviours, MaxLeg, extra constants)
+        # "free": dump_results without allow_restart, first leg stopped right after iteration 0, then restart(s)
+        free = dict(dump=(True,), firstleg=0, allowargB=(False,), sym=(True,))
+        plan = [("1d_inv", 1, 2, 8, 9, {}), ("2d_c4", 1, 2, 4, 9, {}), ("1d_inv6", 1, 3, 6, 1, {}), ("1d_inv", 1, 2, 4, 9, free)]
         if thorough:
-            plan += [("1d_inv", 2, 2, 6, 9), ("1d_inv6", 1, 3, 6, 9)]
+            plan += [("1d_inv", 2, 2, 6, 9, {}), ("1d_inv6", 1, 3, 6, 9, {})]
         sims = []
-        for gname, fac, niter, num, maxleg in plan:
+        for gname, fac, niter, num, maxleg, extra in plan:
             geo = GEOS[gname]
             cfg = mc_cfg(geo, niter=niter, adptfac=fac, view=False, invs=["RestartEquivalence"], props=(), allorders=False,
-                         restart_iters=(0, 1, 1, 2), maxleg=maxleg)
-            sims.append((f"c11_{gname}_{fac}_{maxleg}", geo, cfg, num * mult, 80 * (niter + 1)))
+                         restart_iters=(0, 1, 1, 2), maxleg=maxleg, **extra)
+            sims.append((f"c11_{gname}_{fac}_{maxleg}{'_free' if extra else ''}", geo, cfg, num * mult, 80 * (niter + 1)))
         scripts = simulate_all(ctx, sims)
-        for gname, fac, niter, num, maxleg in plan:
+        for gname, fac, niter, num, maxleg, extra in plan:
             geo = GEOS[gname]
-            key = f"c11_{gname}_{fac}_{maxleg}"
+            key = f"c11_{gname}_{fac}_{maxleg}{'_free' if extra else ''}"
             run_scripts(ctx, batch, geo, scripts[key], key, adpt_fac=fac)
-            run_random(ctx, batch, geo, rng, (num // 2) * mult, niter, key, adpt_fac=fac, allow_par=False)
+            run_random(ctx, batch, geo, rng, (num // 2) * mult, niter, key, adpt_fac=fac, allow_par=False, first_dump_noallow_zero=True)
         ctx.mark("scenarios_on_real_code")
         batch.validate("c11")
         ctx.mark("trace_validation")
-        require_classes(ctx, ["tlc-behaviour", "random", "restart", "two_restarts", "listing_permuted", "restart_back_or_explicit", "dump"])
+        require_classes(ctx, ["tlc-behaviour", "random", "restart", "two_restarts", "listing_permuted", "restart_back_or_explicit", "dump",
+                              "dump_without_allow_zero_first_leg_then_restart"])
 
     elif pid == "C12":
         gp = Geometry(1, 5, 2, 1, "none")
